@@ -63,7 +63,7 @@ func vrHitsSnapshot() map[string]uint64 {
 
 func vcScenC19(t *vcTrial) {
 	r := t.R
-	w := []string{"echo", "echo", "closers", "dials", "bigwrites", "pool", "slices", "shutdown"}[r.intn(8)]
+	w := []string{"echo", "echo", "closers", "dials", "bigwrites", "pool", "slices", "shutdown", "lifecycle", "lifecycle"}[r.intn(10)]
 	t.P("workload", w)
 	switch w {
 	case "echo":
@@ -80,6 +80,8 @@ func vcScenC19(t *vcTrial) {
 		vrPool(t)
 	case "slices":
 		vrSlices(t)
+	case "lifecycle":
+		vrLifecycle(t)
 	}
 	t.Nontrivial = true
 	t.Sig = w + "|" + vfEnvStr("VERIF_RACE_MODE", "off")
@@ -430,4 +432,84 @@ func vrSlices(t *vcTrial) {
 	lb.Release()
 	wg.Wait()
 	lb.Close()
+}
+
+// vrLifecycle: peers that hang up before, while and after OnConnect runs, with OnConnect returning a
+// new context and OnDisconnect/OnRequest reading it; everything here is ordinary use of the API.
+func vrLifecycle(t *vcTrial) {
+	r := t.R
+	network := []string{"tcp", "unix"}[r.intn(2)]
+	addr := "127.0.0.1:0"
+	if network == "unix" {
+		addr = fmt.Sprintf("%s/rl%d.sock", vcTempDir(), atomic.AddUint64(&vcSockSeq, 1))
+	}
+	ln, err := CreateListener(network, addr)
+	if err != nil {
+		t.Inconclusive("listen: %v", err)
+		return
+	}
+	type key struct{}
+	delays := make([]int, 64)
+	for i := range delays {
+		delays[i] = r.intn(2500)
+	}
+	var idx int32
+	var disconnects, requests int32
+	evl, err := NewEventLoop(func(ctx context.Context, c Connection) error {
+		_ = ctx.Value(key{})
+		atomic.AddInt32(&requests, 1)
+		c.Reader().Skip(c.Reader().Len())
+		return nil
+	},
+		WithOnPrepare(func(c Connection) context.Context { return context.Background() }),
+		WithOnConnect(func(ctx context.Context, c Connection) context.Context {
+			d := delays[int(atomic.AddInt32(&idx, 1))%len(delays)]
+			time.Sleep(time.Duration(d) * time.Microsecond)
+			return context.WithValue(ctx, key{}, d)
+		}),
+		WithOnDisconnect(func(ctx context.Context, c Connection) {
+			_ = ctx.Value(key{})
+			atomic.AddInt32(&disconnects, 1)
+		}))
+	if err != nil {
+		ln.Close()
+		t.Inconclusive("eventloop: %v", err)
+		return
+	}
+	var serving sync.WaitGroup
+	serving.Add(1)
+	go func() { defer serving.Done(); evl.Serve(ln) }()
+	if vc13ServerOf(evl) == nil {
+		t.Inconclusive("Serve did not start")
+		return
+	}
+	nclients := r.rng(4, 24)
+	plan := make([][2]int, nclients)
+	for i := range plan {
+		plan[i] = [2]int{r.intn(3000), r.intn(2)}
+	}
+	var wg sync.WaitGroup
+	for i := 0; i < nclients; i++ {
+		wg.Add(1)
+		go func(i int) {
+			defer wg.Done()
+			c, err := net.DialTimeout(network, ln.Addr().String(), 2*time.Second)
+			if err != nil {
+				return
+			}
+			if plan[i][1] == 1 {
+				c.Write([]byte("hello"))
+			}
+			time.Sleep(time.Duration(plan[i][0]) * time.Microsecond)
+			c.Close()
+		}(i)
+	}
+	wg.Wait()
+	time.Sleep(5 * time.Millisecond)
+	ctx, cancel := context.WithTimeout(context.Background(), 2*time.Second)
+	evl.Shutdown(ctx)
+	cancel()
+	serving.Wait()
+	t.Stat("lifecycle_clients", nclients)
+	t.Stat("lifecycle_disconnects", int(atomic.LoadInt32(&disconnects)))
 }
